@@ -209,6 +209,61 @@ def version_precedence(ctx, case):
         protocol.interfaces.update(saved)
 
 
+def reload_after_lookup(ctx, case):
+    """what the lookups answer always reflects the descriptions loaded NOW: a higher version loaded after a lookup, or a dump and reload, is seen"""
+    from collections import OrderedDict
+    from core.wl import protocol
+    from core.output import Output, stream
+    saved = dict(protocol.interfaces)
+    saved_pp = protocol.parse_protocol
+    protocol.interfaces.clear()
+    try:
+        def iface(version, argnames, enum_entries):
+            args = OrderedDict((n, protocol.Arg(n, 'uint', 'wl_iface_' + n, 'e' if i == 0 else None)) for i, n in enumerate(argnames))
+            msg = protocol.Message('m', False, args)
+            enum = protocol.Enum('e', False, OrderedDict((n, protocol.EnumEntry(n, v)) for n, v in enum_entries))
+            return protocol.Interface('x_iface', version, OrderedDict([('m', msg)]), OrderedDict([('e', enum)]))
+        v1 = iface(1, ['a', 'b'], [('one', 1)])
+        v2 = iface(ctx.choose([2, 3], 'newer'), ['x', 'y', 'z'], [('uno', 1), ('dos', 2)])
+        protos = {'f1.xml': protocol.Protocol('p1', 'f1.xml', OrderedDict([('x_iface', v1)])), 'f2.xml': protocol.Protocol('p2', 'f2.xml', OrderedDict([('x_iface', v2)]))}
+        protocol.parse_protocol = lambda f: protos[f]
+        out = Output(False, False, stream.Null(), stream.Null())
+        protocol.load('f1.xml', out)
+        looked = ctx.choose([True, False], 'lookup_before_second_load')
+        if looked:
+            ctx.check('first description answers', protocol.get_arg_name('x_iface', 'm', 1) == 'b' and protocol.look_up_enum('x_iface', 'm', 0, 1) == ['one'])
+        how = ctx.choose(['load-newer', 'dump-and-load-newer', 'dump-and-reload-same'], 'then')
+        if how == 'load-newer':
+            protocol.load('f2.xml', out)
+            cur = v2
+        elif how == 'dump-and-load-newer':
+            protocol.dump_all()
+            protocol.load('f2.xml', out)
+            cur = v2
+        else:
+            protocol.load('f2.xml', out)
+            if looked:
+                protocol.get_arg_name('x_iface', 'm', 2)
+            protocol.dump_all()
+            protocol.load('f1.xml', out)
+            cur = v1
+        names = list(cur.messages['m'].args.keys())
+        for i, n in enumerate(names):
+            ctx.check('argument %d is named by the description in force' % i, protocol.get_arg_name('x_iface', 'm', i) == n)
+            ctx.check('nil interface from the description in force', protocol.look_up_interface('x_iface', 'm', i) == 'wl_iface_' + n)
+        raised = False
+        try:
+            protocol.get_arg_name('x_iface', 'm', len(names))
+        except RuntimeError:
+            raised = True
+        ctx.check('beyond the last argument of the description in force: error', raised)
+        ctx.check('enum labels from the description in force', protocol.look_up_enum('x_iface', 'm', 0, 1) == [list(cur.enums['e'].entries.keys())[0]])
+    finally:
+        protocol.parse_protocol = saved_pp
+        protocol.interfaces.clear()
+        protocol.interfaces.update(saved)
+
+
 def unknown_interface(ctx, case):
     from core import wl
     protocol, best = _load()
@@ -270,6 +325,8 @@ def obligations(tier):
         Ob('version-precedence', 'symx', 'protocol.load keeps the description with the greatest version whatever the order (versions symbolic)', FUNCS[5:6],
            'k = 2, 3, 4 descriptions of one interface, versions in [1, 1000)', version_precedence, cases=[2, 3, 4] if tier != 'quick' else [2, 3],
            stubs=['parse_protocol replaced by synthetic Protocol objects']),
+        Ob('reload-after-lookup', 'symx', 'lookups reflect the descriptions in force after a later load of a higher version / a dump and reload', FUNCS[:6] + ['core.wl.protocol:dump_all'],
+           '2 versions x lookup before or not x 3 reload orders', reload_after_lookup, cases=[None], stubs=['parse_protocol replaced by synthetic Protocol objects']),
         Ob('unknown-interface', 'symx', 'arguments of messages on undescribed interfaces (or untyped targets) stay undecorated and raise nothing', FUNCS,
            'any index, any value, 4 argument kinds', unknown_interface, cases=[None]),
     ]
